@@ -472,27 +472,39 @@ func (w *world) recv(resolver *confmap.Resolver, long bool) {
 	if long {
 		wait = time.Duration(w.s.StallMS) * time.Millisecond
 	}
+	// the receive and its record are one step under the recorder's mutex (polling): no other recorded event can fall between
+	// the moment the value leaves the channel and the "recv" event
 	got := -1
-	select {
-	case err, ok := <-resolver.Watch():
-		switch {
-		case !ok:
-			got = -2
-		case err == nil:
-			got = 0
-		default:
-			var we werr
-			if errors.As(err, &we) {
-				got = we.id
-			} else {
-				got = -3 // an error nobody raised
+	deadline := time.Now().Add(wait)
+	for {
+		w.mu.Lock()
+		taken := true
+		select {
+		case err, ok := <-resolver.Watch():
+			switch {
+			case !ok:
+				got = -2
+			case err == nil:
+				got = 0
+			default:
+				var we werr
+				if errors.As(err, &we) {
+					got = we.id
+				} else {
+					got = -3 // an error nobody raised
+				}
 			}
+		default:
+			taken = false
 		}
-	case <-time.After(wait):
+		if taken || time.Now().After(deadline) {
+			w.rec(event{"e": "recv", "got": got, "long": long})
+			w.mu.Unlock()
+			break
+		}
+		w.mu.Unlock()
+		time.Sleep(200 * time.Microsecond)
 	}
-	w.mu.Lock()
-	w.rec(event{"e": "recv", "got": got, "long": long})
-	w.mu.Unlock()
 	if got >= 0 {
 		// a blocked notifier may move up now: let it
 		time.Sleep(time.Duration(w.s.SettleUS) * time.Microsecond)
